@@ -204,7 +204,7 @@ EXT = {
     "C07": "Histories may end with EOF, reset or a server that stays connected and silent (then a configured ping/close timeout must end the iteration); a further enumeration injects one failed write (3 positions x 2 kinds) into 2-step histories; three option sets. Endings also include a fatal TLS error / routing failure that every later read repeats (over wss://). Cases may run with a second live connection in the same process (interleaved at events and after reads, or blocked inside a send). The alphabet includes a frame exactly as long as the 64 KiB receive buffer. A further enumeration runs histories through an HTTP proxy that answers 200, refuses, sends garbage, stalls, drops or resets during the CONNECT exchange (ws and wss). Application policies include handlers that take longer than the poll interval; a negative selector timeout blocks like poll() does. A further ender, 'chatter', keeps the connection readable for ever without ever completing a frame (one byte every 0.9 s): the timers must still run. The simulated socket has no descriptor after close() and the selector constructor refuses such a socket, as the real selectors do. The client's clock has a realistic epoch (2**31 s), not zero.",
     "C08": "Close reasons are drawn at the boundary sizes (0, 120-123 bytes, 1-4 byte characters), close codes include 1012/1013, close_timeout is None, 0 (both documented as disabled) or 30 s. Cases may be preceded by an earlier connection in the same process (same WebSocket object or another one) that ended in one of 19 abnormal ways; a fixed battery is run after every such ending. Cases may run with a second live connection in the same process (interleaved at events and after reads, or blocked inside a send). The application may also make calls with unsendable arguments (and catch the error) at drawn events: they must leave no trace. A further mode lets the server's Close cross the application's close() in one read. The write that carries the client's Close (own or echo) may fail without breaking the transport (enumerated x close_timeout x EOF timing x sends): the attempt then stands for the frame and the statement's outcomes are still demanded. Cases may run with DEBUG logging switched on for the library (every record formatted by a handler); the fixed battery is enumerated that way. Cases also run over TLS and with permessage-deflate negotiated (the small battery enumerated x ws/wss x plain/default/non-default parameters).",
     "C09": "Non-fatal write faults are re-run with a server that then stays silent: if the closing handshake had been started the connection must still end by itself (close timeout). On wss:// the TLS handshake of the first j of n addresses fails after a successful TCP connect (reset, EOF, certificate error, timeout), and truncated streams also end in a persistent TLS error. Cases may run with a second live connection in the same process (interleaved at events and after reads, or blocked inside a send). Optionally the connection goes through an HTTP proxy; its answer to CONNECT is then cut at every byte offset. Every injected error text contains characters special to str.format and % formatting. A permessage-deflate dimension lets the application's sends pass through the compressor before a write fails; a fixed battery (plain/deflate x ws/wss x direct/proxy x closing order) is enumerated. Each selector-wait position is also run with that wait and every later one failing (a descriptor gone bad): swallowing the error must not turn into spinning for ever. On the socket of an established connection whose transport had not failed close() must have been CALLED (finalisation of the socket object alone counts only before Connected and after a transport failure, where shutdown() fails and lomond skips close()). Every faulted execution ends with three sends made after the event iterator has ended: they must raise a WebSocketError.",
-    "C11": "19 scenarios, incl. client_no_context_takeover and mixed compressed / uncompressed / control senders; three-thread scenarios additionally get a chained second preemption (right after the thread switched to has finished, hand over to the third thread). Six more scenarios use 300-byte and hardly compressible 70 000-150 000-byte payloads racing with small frames. Scheduled runs use the library's own masking-key source. Payloads differ in length and prefix per sender and call, so that a back-reference computed in one sender's private history lands on different bytes in the wire history. For the deflate scenarios an early first preemption (first 24 steps) is combined with every second preemption in both tiers (first-use races). Three more scenarios let the event loop inflate compressed server messages (and answer a Ping) while other threads deflate theirs (default parameters, client_no_context_takeover, both flags). The harness replaces only a real _thread.lock of the session; a write lock the library builds itself stays under test (the shim provides scheduler-aware Lock, RLock and Condition, with timed waits timing out once nothing else can run). A further sweep combines a first preemption inside a locked write with every second preemption (2 x 2 scenario). Three-thread scenarios also get three-preemption chains: a first preemption inside a locked write, hand-over to the third thread when the second blocks, then a third preemption at every later write / lock / condition point. The four-call client_no_context_takeover scenario is part of the early-first x second preemption sweep (quick tier: second preemptions inside the extension's code and at write / lock points; thorough: everywhere). Two content-overlap scenarios: random bytes that deflate cannot shrink against a payload that repeats them. One more three-thread scenario has three compressing senders.",
+    "C11": "19 scenarios, incl. client_no_context_takeover and mixed compressed / uncompressed / control senders; three-thread scenarios additionally get a chained second preemption (right after the thread switched to has finished, hand over to the third thread). Six more scenarios use 300-byte and hardly compressible 70 000-150 000-byte payloads racing with small frames. Scheduled runs use the library's own masking-key source. Payloads differ in length and prefix per sender and call, so that a back-reference computed in one sender's private history lands on different bytes in the wire history. For the deflate scenarios an early first preemption (first 24 steps) is combined with every second preemption in both tiers (first-use races). Three more scenarios let the event loop inflate compressed server messages (and answer a Ping) while other threads deflate theirs (default parameters, client_no_context_takeover, both flags). The harness replaces only a real _thread.lock of the session; a write lock the library builds itself stays under test (the shim provides scheduler-aware Lock, RLock and Condition, with timed waits timing out once nothing else can run). A further sweep combines a first preemption inside a locked write with every second preemption (2 x 2 scenario). Three-thread scenarios also get three-preemption chains: a first preemption inside a locked write, hand-over to the third thread when the second blocks, then a third preemption at every later write / lock / condition point. The four-call client_no_context_takeover scenario is part of the early-first x second preemption sweep (quick tier: second preemptions inside the extension's code and at write / lock points; thorough: everywhere). Two content-overlap scenarios: random bytes that deflate cannot shrink against a payload that repeats them. One more three-thread scenario has three compressing senders. For the three-sender scenarios every pair of preemptions at write / lock / condition points is swept under a second resume policy of the scheduler (the most recently preempted thread continues when the running one blocks).",
     "C12": "18 scenarios, incl. three-actor ones (sender, pinger = application ping / the loop's pong / the loop's automatic ping, closer) with a chained second preemption as in C11. Three more scenarios cover the other shapes of a Close frame (server Close without a body echoed by the loop, close() without a code, maximal reason). Four more scenarios race 300-byte and 140 000-150 000-byte frames with an application Close and with the loop's echo of the server's Close. A first preemption inside a locked write x every second preemption is swept for close() against a thread that sends twice. Three-thread scenarios also get the three-preemption chains described under C11 (two waiters queued behind a writer). Two more scenarios: the loop fails the connection for a protocol violation (reserved opcode; invalid UTF-8) while the application closes / sends.",
     "C13": "A fifth mechanism keeps the generator alive while the same WebSocket connects again and drops it afterwards. The socket must have been close()d by the library (finalisation alone counts only after a reset, where lomond skips close()). Cases optionally carry one failing write before the abandonment. Cases may run with a second live connection in the same process (interleaved at events and after reads, or blocked inside a send). Two more mechanisms finalise the generator on ANOTHER thread (gen.close() there, last reference dropped there). Optionally through an HTTP proxy. TLS unwrap() is modelled as fallible I/O (it fails while application data is in flight or when the peer is gone). A scheduled stage (the C11 scheduler; every thread order x every single preemption) lets the consumer call gen.close() at a Text event while one or two other threads are inside send_* on the same connection (also a 70 000-byte compressed frame): the socket must have been close()d when all threads are done, and nothing may dead-lock. Every abandonment point x mechanism is also run after every kind of earlier connection, incl. earlier connections made inside a 'with ws:' block on the same object. A seventh mechanism leaves a with-block by an exception whose text is long, multi-byte and full of format characters.",
     "C14": "A scheduled stage (the C11/C12 scheduler; every thread order x every single preemption) races a sender thread with the event loop answering two Pings while the loop's consumer reacts to each Ping event: each Pong must precede the reaction on the wire. With permessage-deflate negotiated (any parameters) the data messages selected by a mask are sent compressed, so Pings also arrive between compressed fragments. Cases may be preceded by an earlier connection in the same process (same WebSocket object or another one) that ended in one of 19 abnormal ways; a fixed battery is run after every such ending. Cases may run with a second live connection in the same process (interleaved at events and after reads, or blocked inside a send). The application may also make calls with unsendable arguments (and catch the error) at drawn events: they must leave no trace. A protocol-violating frame (9 classes) may follow the conforming stream, also in the same read: every Ping before it must still be answered. Two more scheduled scenarios put a thread calling close() against the loop answering Pings: a Ping handed to the application before any Close frame was written must have been answered. Cases may run with DEBUG logging switched on for the library (every record formatted by a handler); the fixed battery is enumerated that way. Pings before, between and behind messages of 64 KiB and more, delivered in buffer-filling reads, are enumerated with automatic Pongs on and off (plain and deflate).",
